@@ -113,11 +113,45 @@ CLAIMED = {
 PENDING_REASON = "not yet covered: model/theorems for this property are still being built (see DESIGN.md section 10 for the order of work); no check is claimed until its theorems are proved and tied to the code"
 
 
+def registered_suffix(pid):
+    """what harness/ties.json registers for this property beyond Props/<pid>.lean: source-level ties (Python function translated from its AST
+    on every run and PROVED equal to the hand model) and theorems about the composed model of the whole `update` command"""
+    p = os.path.join(VERIF, "harness", "ties.json")
+    if not os.path.exists(p):
+        return "", ""
+    entries = json.load(open(p)).get(pid, [])
+    funcs, upd = [], []
+    for e in entries:
+        if e.get("python"):
+            if e["python"] not in funcs:
+                funcs.append(e["python"])
+        elif e["module"].endswith("Props.Update"):
+            upd.append(e["theorem"])
+    text, tech = "", ""
+    if upd:
+        text += (" COMPOSED MODEL of the whole `bumpver update` command (Model/Update.lean: version decision, dirty check, rewrite phase and VCS plan composed as cli.update "
+                 "composes them; outcome = files afterwards, ordered event trace, exit code): theorems %s hold for ALL inputs and are obligations of this check; tied to the real CLI by op "
+                 "update_full (generated projects with real files x flag/config lattice x tag and status listings x faults x failure positions, compared on exit code, event trace and "
+                 "the content of every configured file)." % ", ".join(upd))
+        tech += " + end-to-end theorems on the composed update model with CLI-level correspondence"
+    if funcs:
+        text += (" FURTHER SOURCE-LEVEL TIES (harness/ties.json): %s are translated from their Python AST to Lean on every run (harness/translate_*.py -> Gen/F_*.lean) and PROVED equal "
+                 "to the hand model for all inputs (Proofs/Tie_*.lean); each tie is an obligation of this check: a semantic edit of one of these functions breaks a proof deterministically "
+                 "(or leaves the translated subset, which breaks it too), a behaviour-preserving rewrite does not." % ", ".join(funcs))
+        tech += " + function-level translation ties"
+    return text, tech
+
+
 def main():
     checks = []
     for pid in ALL:
         if pid in CLAIMED:
             text, note, tech, ref = CLAIMED[pid]
+            t2, k2 = registered_suffix(pid)
+            text += t2
+            if "function-level translation tie" in tech:
+                k2 = k2.replace(" + function-level translation ties", "")
+            tech += k2
             checks.append({
                 "property_id": pid,
                 "quick_cmd": "./check %s --tier quick" % pid,
